@@ -24,12 +24,23 @@ use risinglight::types::DataValue;
 use serde_json::{Value, json};
 
 static PANICKED: std::sync::atomic::AtomicBool = std::sync::atomic::AtomicBool::new(false);
+static LAST_PANIC: std::sync::Mutex<String> = std::sync::Mutex::new(String::new());
 
 /// Operators run in spawned tasks; a panic there is swallowed by the runtime and the statement
 /// "succeeds" with rows missing. Record it so that callers can tell.
 fn install_panic_flag() {
     std::panic::set_hook(Box::new(|info| {
         PANICKED.store(true, std::sync::atomic::Ordering::SeqCst);
+        let loc = info
+            .location()
+            .map(|l| {
+                let f = l.file();
+                // keep the path from the crate name on (registry hashes and absolute prefixes vary)
+                let f = f.rsplit_once("/src/").map(|(a, b)| format!("{}/src/{}", a.rsplit('/').next().unwrap_or(""), b)).unwrap_or(f.to_string());
+                format!("{}:{}", f, l.line())
+            })
+            .unwrap_or_default();
+        *LAST_PANIC.lock().unwrap() = loc;
         eprintln!("panic: {info}");
     }));
 }
@@ -284,7 +295,8 @@ async fn cmd_plans(input: Value) {
                         );
                     }
                     Err(_) => {
-                        opts.insert(name, json!({"panic": true}));
+                        take_panicked();
+                        opts.insert(name, json!({"panic": true, "where": LAST_PANIC.lock().unwrap().clone()}));
                     }
                 }
             }
